@@ -143,6 +143,22 @@ def mutants(src):
                             new = [" ".join(x) for x in lines]
                             new[li] = " ".join(t)
                             yield "\n".join(new)
+    # an operand replaced by a function the tool turns into a procedure call (hoisted in front of the statement): every
+    # numeric / string operand position of every statement must survive that
+    for li, toks in enumerate(lines):
+        for i in range(1, len(toks)):
+            if re.fullmatch(r"[A-Z]|[0-9]+", toks[i]) and not (i + 1 < len(toks) and toks[i + 1] in ("=", "(") and i == 1):
+                subs = ("INT ( X )", "JOYSTK ( 0 )")
+            elif re.fullmatch(r"[A-Z]\$", toks[i]) and not (i + 1 < len(toks) and toks[i + 1] in ("=", "(") and i == 1):
+                subs = ("INKEY$", "STR$ ( X )")
+            else:
+                continue
+            for sub in subs:
+                t = list(toks)
+                t[i] = sub
+                new = [" ".join(x) for x in lines]
+                new[li] = " ".join(t)
+                yield "\n".join(new)
     for li, toks in enumerate(lines):
         for i in range(1, len(toks)):
             for kind in ("del", "dup", "swap"):
